@@ -295,6 +295,7 @@ def _merge(a, b):
 
 
 _LOGIC = {}
+_VALIDATE_EVERY = {}
 
 
 def run_path(fn, prefix, st, timeout_ms, name):
@@ -326,7 +327,8 @@ def run_path(fn, prefix, st, timeout_ms, name):
             st["paths"] += 1
             return e.new_work
         model = e.last.model()
-        if e.validator is not None:
+        do_validate = e.validator is not None and (st["paths"] % _VALIDATE_EVERY.get(name, 1) == 0)
+        if do_validate:
             model = _diversify(e, model)
         st["paths"] += 1
         for l in e.reached:
@@ -360,7 +362,7 @@ def run_path(fn, prefix, st, timeout_ms, name):
                     v = {"key": f"{name}:{label}", "what": f"obligation '{label}' refuted by the solver; no concrete replay available",
                          "replay": {"env": {k: str(x) for k, x in env2.items() if k in e.inputs}}, "reproduced": False}
                 st["violations"].append(v)
-        if e.validator is not None:
+        if do_validate:
             try:
                 res = e.validator(env)
             except Exception as ex:
@@ -430,11 +432,12 @@ def _task(arg):
     return st, work
 
 
-def explore(fn, name, workers=None, timeout_ms=20000, max_paths=None, budget_s=None, chunk_paths=25, chunk_s=20.0, logic="lira"):
+def explore(fn, name, workers=None, timeout_ms=20000, max_paths=None, budget_s=None, chunk_paths=25, chunk_s=20.0, logic="lira", validate_every=1):
     """Explore all paths of fn.  Returns merged statistics; st['truncated'] tells whether a budget cut the search."""
     workers = workers or min(16, os.cpu_count() or 1)
     _FN[name] = fn
     _LOGIC[name] = logic
+    _VALIDATE_EVERY[name] = validate_every
     total = _new_stats()
     total["truncated"] = False
     t0 = time.time()
